@@ -282,7 +282,7 @@ func genC07(g *mon.G) {
 	r := gen.Rand(g.Seed)
 	conts := []string{"v1", "v1-nullpad", "v2-mh", "v2-sorted-pad", "v2-indexless"}
 	sup := []string{"", "", "", "lib-sorted", "lib-mh", "ref-sorted", "ref-mh"}
-	for i := 0; i < g.Pick(400, 5000); i++ {
+	for i := 0; i < g.Pick(1500, 30000); i++ {
 		g.Emit(c07Desc{Seed: r.Int63(), Container: conts[i%len(conts)], Whole: r.Intn(3) == 0, StoreID: r.Intn(2) == 0, Supplied: sup[r.Intn(len(sup))]})
 	}
 }
